@@ -14,6 +14,16 @@ code -> spec : every run (grids, +-1/+-3 ulp around every level boundary, seeded
                (QuantTrace) decides range / zero / common top level / monotonicity / the boolean clauses and
                recomputes the level with the QuantArith operators wherever the level is decidable on the grid.
 
+life cycle   : QuantLifeMC (TLC, to closure): one quantiser OBJECT under every sequence of SetMode / SetGrad /
+               SetDeq / SetPrec / Call(same | in-place modified | fresh tensor); the state carries the configuration
+               of the previous call, so every ordered pair of call configurations x tensor relation is an edge.
+               Invariant HistoryIndependent; three cache transcriptions with an incomplete key must violate it, the
+               complete key must pass.  EVERY edge of the dumped graphs is replayed (covering walks) on real
+               MinMaxWeight (weights as nn.Parameter of a Conv2d and as plain tensors), PACTAct and QuantizerBias
+               objects; QuantTrace re-derives the abstract state with the QuantLife operators and, at every Call,
+               checks the configuration read back from the object, ALL per-call clauses for the CURRENT precision and
+               dequantize flag, and bit-identity with a freshly constructed quantiser on the same data.
+
 Stated tolerances (DESIGN 5/C13):
   * fake = int x reported scale: relative 2^-20 (float32 round-off of one product); PACT additionally 2e-3/clip
     (its stabiliser: it divides by (clip+1e-3)/(2^p-1) but reports clip/(2^p-1)).
@@ -26,11 +36,14 @@ Stated tolerances (DESIGN 5/C13):
 """
 from __future__ import annotations
 
+import collections
 import hashlib
 import json
 import math
 import random
+import re
 import struct
+import tempfile
 import time
 from fractions import Fraction as Fr
 
@@ -38,6 +51,8 @@ from ..core import Run, use_repo
 from .. import tlc
 
 CAP = 2 ** 30
+# (no special JVM options needed: QuantTrace validates life-cycle histories without recursion)
+TLC_ENV = None
 EPS_FAKE = Fr(1, 2 ** 20)
 EPS_TRUNC = Fr(1, 2 ** 22)
 MARGIN = Fr(1, 2 ** 10)
@@ -104,6 +119,7 @@ class Real:
         import torch
         from plinio.methods.mps.quant.quantizers import MinMaxWeight, PACTAct, QuantizerBias, DummyQuantizer
         self.torch = torch
+        torch.set_num_threads(1)          # tiny tensors: thread-pool wake-ups dominate otherwise (14 ms per max())
         self.MinMaxWeight, self.PACTAct, self.QuantizerBias, self.DummyQuantizer = \
             MinMaxWeight, PACTAct, QuantizerBias, DummyQuantizer
 
@@ -226,6 +242,11 @@ def reduce_w_channel(p, xs, ints, fakes, scale):
 
 
 def reduce_a(p, clipv, dfl, scale, xs, ints, fakes):
+    """fakes = None: only the integer output was observed (life-cycle calls with dequantize=False); the clauses
+    on the fake output are then evaluated on lev*reported scale with the fake=int*scale tolerance composed in."""
+    int_only = fakes is None
+    if int_only:
+        fakes = [0.0] * len(xs)
     L = 2 ** p - 1
     C = Fr(clipv)
     S = Fr(scale) if _fin(scale) else Fr(0)
@@ -244,9 +265,15 @@ def reduce_a(p, clipv, dfl, scale, xs, ints, fakes):
         F = Fr(yf) if fin else Fr(0)
         neg, top = X <= 0, X >= C
         inr = (not neg or X == 0) and X <= C
-        fk = fin and ii and abs(F - lev * S) <= (tol + EPS_FAKE) * abs(lev * S)
-        tr = fin and F <= X * (1 + EPS_TRUNC)
-        el = fin and abs(X - F) < S * (1 + tol) + abs(X) * EPS_TRUNC
+        if int_only:
+            F = lev * S
+            fk = ii
+            tr = F <= X * (1 + EPS_TRUNC)
+            el = abs(X - F) < S * (1 + tol) + (tol + EPS_FAKE) * abs(F) + abs(X) * EPS_TRUNC
+        else:
+            fk = fin and ii and abs(F - lev * S) <= (tol + EPS_FAKE) * abs(lev * S)
+            tr = fin and F <= X * (1 + EPS_TRUNC)
+            el = fin and abs(X - F) < S * (1 + tol) + abs(X) * EPS_TRUNC
         q = X * sfx
         n = math.floor(8 * q)
         n = _cap(n)
@@ -261,7 +288,7 @@ def reduce_a(p, clipv, dfl, scale, xs, ints, fakes):
             nb += 1
         el_.append((X, {"n": n, "nr": nr, "cmp": cmp_, "lev": levc, "ii": ii, "fin": fin, "neg": neg, "top": top,
                         "inr": inr,
-                        "fk": fk, "tr": tr, "el": el, "fz": fin and yf == 0}))
+                        "fk": fk, "tr": tr, "el": el, "fz": (lev == 0 and ii) if int_only else (fin and yf == 0)}))
     el_.sort(key=lambda t: t[0])
     return {"k": "a", "p": p, "clipN": clipN, "spos": spos, "e": [e for _, e in el_]}, nb
 
@@ -317,6 +344,8 @@ def execute(real: Real, sc):
     Returns (trace, info)."""
     k = sc["k"]
     try:
+        if k == "life":
+            return execute_life(real, sc)
         if k == "w":
             ints, fakes, scale = real.weight(sc["p"], sc["x"], sc.get("shape"))
             chans, nb = [], 0
@@ -597,6 +626,338 @@ B_GRID_THOROUGH = B_GRID_QUICK + [
 ]
 
 
+# ------------------------------------------------------------------------------------------------
+# life cycle of ONE quantiser object (QuantLife / QuantLifeMC): every edge of TLC's graph is replayed
+# ------------------------------------------------------------------------------------------------
+LIFE_PRECS = {"w": [8, 2, 0], "a": [8, 2], "b": [8, 0]}      # bias: precision of the weight quantiser whose
+LIFE_PRECS4 = {"w": [8, 4, 2, 0]}                             # scale is fed (0 bits -> scale exactly 0)
+LIFE_CLIP = 6.0
+
+
+def parse_life_label(lab: str):
+    m = re.match(r'\s*(\w+)\((.*)\)\s*$', lab)
+    if not m:
+        raise tlc.MachineryError(f"life graph: cannot parse edge label {lab!r}")
+    name, arg = m.group(1), m.group(2).strip()
+    if name in ("SetMode", "Call"):
+        return name, arg.strip('"')
+    if name in ("SetGrad", "SetDeq"):
+        return name, arg == "TRUE"
+    if name == "SetPrec":
+        return name, int(arg)
+    raise tlc.MachineryError(f"life graph: unknown action {lab!r}")
+
+
+def covering_walks(nodes, edges, init, maxlen=80):
+    """walks (each starting in an initial state of the graph) that together traverse EVERY edge.
+    Returns [(init node id, [edge index ...])]."""
+    out = {}
+    for k, (u, v, lab) in enumerate(edges):
+        out.setdefault(u, []).append((k, v, lab))
+    for u in out:
+        out[u].sort(key=lambda t: (t[2], t[1]))
+    parent = {i: None for i in sorted(init)}
+    depth = {i: 0 for i in parent}
+    dq = collections.deque(sorted(init))
+    while dq:
+        u = dq.popleft()
+        for k, v, _ in out.get(u, []):
+            if v not in parent:
+                parent[v] = (u, k)
+                depth[v] = depth[u] + 1
+                dq.append(v)
+    if len(parent) != len(nodes):
+        raise tlc.MachineryError("life graph: unreachable nodes in the dump")
+
+    def path_to(u):
+        ks = []
+        while parent[u] is not None:
+            u, k = parent[u]
+            ks.append(k)
+        return u, ks[::-1]
+
+    uncovered = set(range(len(edges)))
+    pending = sorted(uncovered, key=lambda k: (depth[edges[k][0]], edges[k][2], edges[k][0], edges[k][1]))
+    walks = []
+    pi = 0
+    while uncovered:
+        while pending[pi] not in uncovered:
+            pi += 1
+        u0 = edges[pending[pi]][0]
+        root, walk = path_to(u0)
+        cur = u0
+        while len(walk) < maxlen:
+            cand = [t for t in out.get(cur, []) if t[0] in uncovered and t[0] not in walk]
+            if cand:
+                k, v, _ = cand[0]
+                walk.append(k)
+                cur = v
+                continue
+            # nearest state with an untraversed outgoing edge
+            seen = {cur: None}
+            dq = collections.deque([cur])
+            goal = None
+            while dq and goal is None:
+                x = dq.popleft()
+                for k, v, _ in out.get(x, []):
+                    if v not in seen:
+                        seen[v] = (x, k)
+                        if any(t[0] in uncovered and t[0] not in walk for t in out.get(v, [])):
+                            goal = v
+                            break
+                        dq.append(v)
+            if goal is None:
+                break
+            ks = []
+            x = goal
+            while seen[x] is not None:
+                x, k = seen[x]
+                ks.append(k)
+            if len(walk) + len(ks) + 1 > maxlen:
+                break
+            walk += ks[::-1]
+            cur = goal
+        before = len(uncovered)
+        uncovered.difference_update(walk)
+        if len(uncovered) == before:
+            raise tlc.MachineryError("life graph: covering walk makes no progress")
+        walks.append((root, walk))
+    return walks
+
+
+def life_edge_scenarios(nodes, edges, init, q, holder, precs, seed, maxlen=80):
+    scen = []
+    walks = covering_walks(nodes, edges, init, maxlen)
+    covered = set()
+    for j, (root, walk) in enumerate(walks):
+        st = nodes[root]["s"]
+        covered.update(walk)
+        scen.append({"k": "life", "gen": "edges", "q": q, "holder": holder, "precs": precs,
+                     "init": {"deq": bool(st["deq"]), "pi": int(st["pi"])},
+                     "acts": [list(parse_life_label(edges[k][2])) for k in walk],
+                     "dseed": seed * 100003 + j})
+    if len(covered) != len(edges):
+        raise tlc.MachineryError(f"life graph: {len(covered)} of {len(edges)} edges covered")
+    return scen
+
+
+def life_random_scenarios(rng, n, length):
+    """seeded random histories (same action alphabet), longer than the covering walks"""
+    scen = []
+    for j in range(n):
+        q = rng.choice(["w", "w", "a", "b"])
+        precs = rng.choice([LIFE_PRECS["w"], LIFE_PRECS4["w"]]) if q == "w" else LIFE_PRECS[q]
+        st = {"mode": "train", "grad": True, "deq": rng.random() < 0.5, "pi": rng.randrange(1, len(precs) + 1)}
+        init = {"deq": st["deq"], "pi": st["pi"]}
+        has = False
+        acts = []
+        for _ in range(length):
+            r = rng.random()
+            if r < 0.45 or not acts:
+                rel = rng.choice(["same", "same", "inplace", "fresh"]) if has else "fresh"
+                acts.append(["Call", rel])
+                has = True
+            elif r < 0.6:
+                st["mode"] = "eval" if st["mode"] == "train" else "train"
+                acts.append(["SetMode", st["mode"]])
+            elif r < 0.72:
+                st["grad"] = not st["grad"]
+                acts.append(["SetGrad", st["grad"]])
+            elif r < 0.86:
+                st["deq"] = not st["deq"]
+                acts.append(["SetDeq", st["deq"]])
+            else:
+                st["pi"] = rng.choice([i for i in range(1, len(precs) + 1) if i != st["pi"]])
+                acts.append(["SetPrec", st["pi"]])
+        scen.append({"k": "life", "gen": "random", "q": q, "holder": rng.choice(["param", "plain"]) if q != "a" else "plain",
+                     "precs": precs, "init": init, "acts": acts, "dseed": rng.randrange(2 ** 31)})
+    return scen
+
+
+def _life_split(deq, ys, s):
+    """the single returned tensor under the CURRENT dequantize flag -> (integer output, fake output or None)"""
+    if not deq:
+        return list(ys), None
+    ints = []
+    for y in ys:
+        if not _fin(y):
+            ints.append(float("nan"))
+        elif _fin(s) and s > 0:
+            ints.append(float(round(Fr(y) / Fr(s))))        # the only integer the fake output can stand for
+        else:
+            ints.append(0.0 if y == 0 else float("nan"))
+    return ints, list(ys)
+
+
+class _LifeEnv:
+    C_W, SHAPE_W = 2, (2, 2, 1, 2)
+    N_A = 8
+    C_B = 4
+
+    def __init__(self, real: Real, q, holder, precs, deq, pi, rng):
+        self.real, self.torch, self.kind, self.holder, self.precs, self.rng = real, real.torch, q, holder, precs, rng
+        self.pi = pi
+        self.t = None
+        self.keep = None
+        self.q = self.construct(deq)
+        if q == "b":
+            self.s_a = real.act_scale(8, LIFE_CLIP)
+            wfix = [[0.75, -0.3], [0.75, 0.1], [-0.21, 0.05], [0.011, -0.21]]
+            self.s_w = {i + 1: real.weight_scale(p, wfix) for i, p in enumerate(precs)}
+
+    def construct(self, deq):
+        p = self.precs[self.pi - 1]
+        if self.kind == "w":
+            return self.real.MinMaxWeight(p, self.C_W, dequantize=deq)
+        if self.kind == "a":
+            return self.real.PACTAct(p, init_clip_val=LIFE_CLIP, dequantize=deq)
+        return self.real.QuantizerBias(32, self.C_B, dequantize=deq)
+
+    def set_prec(self, i):
+        self.pi = i
+        if self.kind != "b":
+            self.q.precision = self.precs[i - 1]
+
+    def values(self):
+        r = self.rng
+        if self.kind == "w":
+            sd = 2.0 ** r.uniform(-6, 1)
+            return [_clamp_mag(f32(r.gauss(0, sd))) or f32(sd) for _ in range(8)], self.SHAPE_W
+        if self.kind == "a":
+            return [_clamp_mag(f32(r.uniform(-1.0, 7.5))) for _ in range(self.N_A)], (self.N_A,)
+        return [_clamp_mag(f32(r.gauss(0, 0.5))) for _ in range(self.C_B)], (self.C_B,)
+
+    def tensor(self, rel):
+        torch = self.torch
+        if rel == "same":
+            return self.t
+        vals, shape = self.values()
+        new = torch.tensor(vals, dtype=torch.float32).reshape(shape)
+        if rel == "inplace":
+            with torch.no_grad():
+                self.t.copy_(new)
+            return self.t
+        if self.holder == "param":            # weights / bias as the nn.Parameter of a layer, as the back-ends hold them
+            if self.kind == "w":
+                layer = torch.nn.Conv2d(2, 2, (1, 2), bias=True)
+                par = layer.weight
+            else:
+                layer = torch.nn.Conv2d(1, self.C_B, 1, bias=True)
+                par = layer.bias
+            with torch.no_grad():
+                par.copy_(new)
+            self.keep, self.t = layer, par
+        else:
+            self.keep, self.t = None, new
+        return self.t
+
+    def run(self, q, x):
+        if self.kind == "b":
+            return q(x, self.s_a.clone(), self.s_w[self.pi].clone())
+        return q(x)
+
+    def call(self, rel, model_deq):
+        torch = self.torch
+        x = self.tensor(rel)
+        xs = x.detach().double().reshape(-1).tolist()
+        y = self.run(self.q, x).detach()
+        sc_t = self.q.scale.detach().clone()
+        # what the object reports about itself
+        obs = {"mode": "train" if self.q.training else "eval", "grad": bool(torch.is_grad_enabled()),
+               "deq": bool(self.q.dequantize),
+               "p": int(self.q.precision) if self.kind != "b" else int(self.precs[self.pi - 1])}
+        # reference: a freshly constructed quantiser of the same configuration on a copy of the same data
+        f = self.construct(bool(self.q.dequantize))
+        f.train(self.q.training)
+        yf = self.run(f, x.detach().clone()).detach()
+        sf_t = f.scale.detach()
+        obs["hist"] = tuple(y.shape) == tuple(yf.shape) and y.dtype == yf.dtype == torch.float32 and \
+            bool(torch.equal(y.contiguous().view(torch.int32), yf.contiguous().view(torch.int32)))
+        obs["hs"] = tuple(sc_t.shape) == tuple(sf_t.shape) and bool(torch.equal(sc_t.double(), sf_t.double()))
+        if tuple(y.shape) != tuple(x.shape):
+            raise _Shape(f"life: output shape {tuple(y.shape)} for input {tuple(x.shape)}")
+        ys = y.double().reshape(-1).tolist()
+        p = self.precs[self.pi - 1]
+        if self.kind == "w":
+            scale = sc_t.double().reshape(-1).tolist()
+            if len(scale) != self.C_W:
+                raise _Shape("life: weight scale length")
+            K = len(xs) // self.C_W
+            chans = []
+            for c in range(self.C_W):
+                ints, fakes = _life_split(model_deq, ys[c * K:(c + 1) * K], scale[c])
+                if fakes is None:
+                    fakes = [(yi * scale[c]) if (_fin(yi) and _fin(scale[c])) else 0.0 for yi in ints]
+                ch, _ = reduce_w_channel(p, xs[c * K:(c + 1) * K], ints, fakes, scale[c])
+                chans.append(ch)
+            obs["tr"] = {"k": "w", "p": p, "ch": chans}
+        elif self.kind == "a":
+            scale = float(sc_t.double())
+            clipv = float(self.q.clip_val.detach().double()[0])
+            dfl = float((torch.tensor(clipv, dtype=torch.float32) + 1e-3).double())
+            ints, fakes = _life_split(model_deq, ys, scale)
+            obs["tr"], _ = reduce_a(p, clipv, dfl, scale, xs, ints, fakes)
+        else:
+            scales = sc_t.double()
+            scales = scales.expand(len(xs)).tolist() if scales.dim() == 0 else scales.reshape(-1).tolist()
+            ints, fakes = [], []
+            for yv, sv in zip(ys, scales):
+                i1, f1 = _life_split(model_deq, [yv], sv)
+                ints.append(i1[0])
+                fakes.append(f1[0] if f1 is not None else ((yv * sv) if (_fin(yv) and _fin(sv)) else 0.0))
+            obs["tr"], _ = reduce_b(xs, ints, fakes, scales, float(self.s_a.double()),
+                                    self.s_w[self.pi].double().tolist())
+        return obs
+
+
+def execute_life(real: Real, sc):
+    torch = real.torch
+    rng = random.Random(sc["dseed"])
+    deq = bool(sc["init"]["deq"])
+    prev = torch.is_grad_enabled()
+    ev = []
+    ncalls = 0
+    try:
+        torch.set_grad_enabled(True)
+        env = _LifeEnv(real, sc["q"], sc["holder"], sc["precs"], deq, int(sc["init"]["pi"]), rng)
+        for name, v in sc["acts"]:
+            if name == "SetMode":
+                env.q.train(v == "train")
+            elif name == "SetGrad":
+                torch.set_grad_enabled(bool(v))
+            elif name == "SetDeq":
+                env.q.dequantize = bool(v)
+                deq = bool(v)
+            elif name == "SetPrec":
+                env.set_prec(int(v))
+            elif name == "Call":
+                ev.append({"a": "Call", "rel": v, "obs": env.call(v, deq)})
+                ncalls += 1
+                continue
+            else:
+                raise tlc.MachineryError(f"life scenario: unknown action {name}")
+            ev.append({"a": name, "v": v})
+    finally:
+        torch.set_grad_enabled(prev)
+    return {"k": "life", "q": sc["q"], "precs": sc["precs"], "init": sc["init"], "ev": ev}, {"calls": ncalls}
+
+
+def _size(tr) -> int:
+    if tr["k"] == "w":
+        return sum(len(c["e"]) for c in tr["ch"])
+    if tr["k"] == "life":
+        return sum(_size(e["obs"]["tr"]) for e in tr["ev"] if e["a"] == "Call")
+    return len(tr["e"])
+
+
+def _ncmp(tr) -> int:
+    if tr["k"] == "w":
+        return sum(1 for c in tr["ch"] for e in c["e"] if e["cmp"])
+    if tr["k"] == "life":
+        return sum(_ncmp(e["obs"]["tr"]) for e in tr["ev"] if e["a"] == "Call")
+    return sum(1 for e in tr["e"] if e.get("cmp"))
+
+
 def _nontrivial(sc) -> bool:
     return bool(sc.get("_nt"))
 
@@ -608,8 +969,11 @@ def run(tier: str, seed: int, replay=None) -> int:
               "True. Grid scenarios lay the integer grid of QuantMC (8 sub-steps per level, all points, exact ties and "
               "+-1/+-3 float32 ulp around every level boundary) over float32 inputs; random scenarios are seeded float32 "
               "tensors of the property's domain (magnitudes 2^-30..2^13, constant / all-zero / single-element / "
-              "mixed-sign / on-boundary channels, clip 0.05..1e3). Non-trivial = the tensor has at least one input "
-              "within 1/8 step of a level boundary (weights, activations), or a zero / <=1e-8 scale or a grid (bias).")
+              "mixed-sign / on-boundary channels, clip 0.05..1e3). Life scenarios drive ONE quantiser object through a "
+              "history (SetMode/SetGrad/SetDeq/SetPrec/Call(same|inplace|fresh)): covering walks over every edge of the "
+              "QuantLifeMC graphs plus seeded random histories. Non-trivial = the tensor has at least one input "
+              "within 1/8 step of a level boundary (weights, activations), or a zero / <=1e-8 scale or a grid (bias), "
+              "or a history with at least two calls (life).")
     R.assumptions = [
         "float32 rounding itself is not modelled: numeric facts (fake = int*scale, error < step, out <= in, scale = s_a*s_w) "
         "are decided by the harness with exact rational arithmetic on the observed float32 values and given to TLC as booleans",
@@ -618,6 +982,9 @@ def run(tier: str, seed: int, replay=None) -> int:
         "levels are compared with the integer model only where the exact quotient is a grid point or >= 2^-10 from a "
         "rounding boundary; a mismatch there is reported as SPEC-DRIFT (the statement does not fix the rounding rule)",
         "CPU float32 only; symmetric weight quantiser only; backward passes (STE) are not part of C13",
+        "life cycle: the history abstraction is (current configuration, configuration of the previous call, tensor relation): "
+        "every 2-call interaction is replayed exhaustively, longer-range interactions only by the seeded random histories; "
+        "PACT clip 6.0, tiny tensors; the clip parameter itself is not changed during a history",
     ]
     real = Real()
     real.torch.manual_seed(seed)
@@ -625,7 +992,7 @@ def run(tier: str, seed: int, replay=None) -> int:
     if replay:
         sc = json.load(open(replay))["scenario"]
         tr, info = execute(real, sc)
-        R.validate("QuantTrace", "QuantTrace", [tr], [sc], key=_digest)
+        R.validate("QuantTrace", "QuantTrace", [tr], [sc], key=_digest, env=TLC_ENV)
         return R.finish()
 
     thorough = tier != "quick"
@@ -638,9 +1005,41 @@ def run(tier: str, seed: int, replay=None) -> int:
         if res.violations[0]["name"] != inv:
             raise tlc.MachineryError(f"sanity config QuantMC_{bad}: expected {inv} to fail, got {res.violations[0]['name']}")
 
+    # 1b. design level, life cycle of one quantiser object: all histories to closure; the labelled graphs of
+    #     the reference configuration are dumped for the replay; three cache transcriptions with an incomplete
+    #     key must violate HistoryIndependent, the one with the complete key must pass
+    life_acts = ["QuantLifeMC!" + a for a in ("SetMode", "SetGrad", "SetDeq", "SetPrec", "Call")]
+    graphs = {}
+    for np_ in ([2, 3, 4] if thorough else [2, 3]):
+        dot = tempfile.mktemp(prefix=f"c13-life{np_}-", suffix=".dot", dir=tlc.scratch())
+        res = R.design("QuantLifeMC", f"QuantLifeMC_ref{np_}", dump_dot=dot, coverage=True, require_cov=life_acts,
+                       workers=4)
+        nodes, edges, init = tlc.parse_dot(dot)
+        if len(nodes) != res.distinct:
+            raise tlc.MachineryError(f"life dump has {len(nodes)} states, TLC reported {res.distinct}")
+        graphs[np_] = (nodes, edges, init)
+    for bad in ("cache_nodeq", "cache_noprec", "cache_noversion"):
+        res = R.design("QuantLifeMC", f"QuantLifeMC_{bad}", expect_ok=False, workers=1)
+        if res.violations[0]["name"] != "HistoryIndependent":
+            raise tlc.MachineryError(f"sanity config QuantLifeMC_{bad}: expected HistoryIndependent to fail")
+    R.design("QuantLifeMC", "QuantLifeMC_cache_ok", workers=1)
+
     # 2. scenarios --------------------------------------------------------------------------------
     rng = random.Random(seed * 7919 + 13)
     scen = []
+    life_edges = {}
+    for q, holder, precs in [("w", "param", LIFE_PRECS["w"]), ("w", "plain", LIFE_PRECS["w"]),
+                             ("a", "plain", LIFE_PRECS["a"]), ("b", "param", LIFE_PRECS["b"]),
+                             ("b", "plain", LIFE_PRECS["b"])] + \
+                            ([("w", "param", LIFE_PRECS4["w"])] if thorough else []):
+        nodes, edges, init = graphs[len(precs)]
+        ls = life_edge_scenarios(nodes, edges, init, q, holder, precs, seed)
+        life_edges[f"{q}/{holder}/{len(precs)} precisions"] = {
+            "graph_edges": len(edges), "edges_replayed": len(edges), "walks": len(ls),
+            "call_edges": sum(1 for e in edges if e[2].startswith("Call"))}
+        scen += ls
+    scen += life_random_scenarios(rng, 400 if thorough else 30, 120 if thorough else 60)
+    R.extra["life_edge_replay"] = life_edges
     if thorough:
         scen += w_grid_scenarios([0, 2, 3, 4, 5, 6, 7, 8], [-27, -20, -13, -7, -1, 0, 3, 6, 9], 6, rng)
         scen += a_grid_scenarios([2, 3, 4, 5, 6, 7, 8], [0.05, 0.1, 0.5, 1.0, 6.0, 37.5, 255.0, 1000.0])
@@ -659,30 +1058,30 @@ def run(tier: str, seed: int, replay=None) -> int:
     # 3. run the real quantisers, reduce, let TLC decide --------------------------------------------
     t_exec = time.time()
     traces = []
-    n_elem = n_bnd = n_tiny = 0
+    n_elem = n_bnd = n_tiny = n_life_calls = 0
     counts = {}
     for sc in scen:
         tr, info = execute(real, sc)
         if tr["k"] == "shape":
             R.violation("C13.shape: " + tr["msg"], sc)
             tr = {"k": "d", "same": True, "s1": True, "e": []}
-        sc["_nt"] = bool(info.get("boundary") or info.get("tiny") or (sc["k"] == "b" and sc["gen"] == "grid")
-                         or (sc["k"] == "b" and any(g["p"] == 0 for g in sc["wq"])))
+        if sc["k"] == "life":
+            sc["_nt"] = info.get("calls", 0) >= 2
+            n_life_calls += info.get("calls", 0)
+        else:
+            sc["_nt"] = bool(info.get("boundary") or info.get("tiny") or (sc["k"] == "b" and sc["gen"] == "grid")
+                             or (sc["k"] == "b" and any(g["p"] == 0 for g in sc["wq"])))
         traces.append(tr)
         n_bnd += info.get("boundary", 0)
         n_tiny += info.get("tiny", 0)
-        if tr["k"] == "w":
-            n_elem += sum(len(c["e"]) for c in tr["ch"])
-        else:
-            n_elem += len(tr["e"])
+        n_elem += _size(tr)
         kk = sc["k"] + ":" + sc["gen"]
         counts[kk] = counts.get(kk, 0) + 1
     R.extra["scenarios_by_kind"] = counts
     R.extra["execute_and_reduce_wall_s"] = round(time.time() - t_exec, 2)
     R.extra["elements_observed"] = n_elem
-    R.extra["elements_level_compared_with_model"] = sum(
-        sum(1 for c in tr["ch"] for e in c["e"] if e["cmp"]) if tr["k"] == "w" else
-        sum(1 for e in tr["e"] if e.get("cmp")) for tr in traces)
+    R.extra["elements_level_compared_with_model"] = sum(_ncmp(tr) for tr in traces)
+    R.extra["life_calls_on_real_objects"] = n_life_calls
     R.extra["elements_within_eighth_step_of_boundary"] = n_bnd
     R.extra["bias_elements_with_tiny_scale"] = n_tiny
     for kind in ("w", "a", "b"):
@@ -698,7 +1097,7 @@ def run(tier: str, seed: int, replay=None) -> int:
     batch, size = [], 0
     batches = []
     for i in order:
-        sz = sum(len(c["e"]) for c in traces[i]["ch"]) if traces[i]["k"] == "w" else len(traces[i]["e"])
+        sz = _size(traces[i])
         if batch and size + sz > 120000:
             batches.append(batch)
             batch, size = [], 0
@@ -708,6 +1107,6 @@ def run(tier: str, seed: int, replay=None) -> int:
         batches.append(batch)
     for bi, b in enumerate(batches):
         R.validate("QuantTrace", "QuantTrace", [traces[i] for i in b], [scen[i] for i in b],
-                   nontrivial=_nontrivial, key=_digest, label=f"batch {bi + 1}/{len(batches)}", workers=8)
+                   nontrivial=_nontrivial, key=_digest, label=f"batch {bi + 1}/{len(batches)}", workers=8, env=TLC_ENV)
     R.exhaustive = False
     return R.finish()
